@@ -169,4 +169,8 @@ def recorder : LeafFn := fun a args kw =>
       else .ok (.tuple [a, .tuple args, .dict kw])
   | _ => .ok (.tuple [a, .tuple args, .dict kw])
 
+/-- `lambda a, *args, **kw: (a, args, kw)` without the raising leaves (used for the library's text helpers:
+the harness applies the library's own leaf function to the recorded leaf calls) -/
+def recorderPure : LeafFn := fun a args kw => .ok (.tuple [a, .tuple args, .dict kw])
+
 end Pyg
